@@ -448,6 +448,20 @@ class Ctx:
             "C++ driver glue, g++ 12, python3 generators",
         ]
         self.proof_result = r
+        if r["ok"] and self.tier == "thorough":
+            # independent re-check of the compiled property file and everything it depends on
+            with Lock("coq"):
+                t0 = time.time()
+                rc, out = sh(["coqchk", "-o", "-silent", "-Q", "theories", "LC", "-Q", "gen", "LCGen", "LC.Properties_%s" % self.pid],
+                             cwd=COQ, timeout=2400)
+            m = re.search(r"\* Axioms:(.*?)\n\s*\n\* Constants", out, flags=re.S)
+            ax = " ".join(m.group(1).split()) if m else "?"
+            self.cov["coqchk"] = {"rc": rc, "axioms": ax, "wall_s": round(time.time() - t0, 1),
+                                  "cmd": "coqchk -o -silent -Q theories LC -Q gen LCGen LC.Properties_%s" % self.pid}
+            self.log("coqchk rc=%d axioms=%s (%.0fs)" % (rc, ax, time.time() - t0))
+            if rc != 0:
+                r["ok"] = False
+                r.setdefault("failed_at", []).append("coqchk: " + out[-400:])
         if not r["ok"]:
             self.log("PROOFS BROKEN", r.get("failed_at"), r["forbidden"])
         else:
